@@ -53,7 +53,7 @@ func main() {
 		// hand-written implementations of the corpus' custom typerefs, placed where the generator looks for them
 		for _, n := range s.Types {
 			if n.Kind == "typeref" && n.Custom {
-				dir := filepath.Join(*customDir, filepath.FromSlash(strings.ReplaceAll(n.Namespace, ".", "/")))
+				dir := filepath.Join(*customDir, filepath.FromSlash(schema.NamespaceDir(n.Namespace)))
 				must(os.MkdirAll(dir, 0o755))
 				must(os.WriteFile(filepath.Join(dir, n.Name+".go"), []byte(schema.CustomTyperefSource(s.PackageRoot, n, *fnv1aImport)), 0o644))
 			}
